@@ -252,8 +252,57 @@ fn gen_cases(rng: &mut Rng, alg: usize, secret: &str, t: u64, exhaustive_mutatio
     out
 }
 
+/// Claims exactly at the current second. RFC 7519: the current time must be *before* `exp` (exp == now is expired) and *not before*
+/// `nbf` (nbf == now is valid); `iat == now` is not in the future. The clock is read immediately before and after the request: the
+/// observation counts only if both readings are the claim's second, so the verdict does not depend on how fast anything ran.
+fn boundary(rep: &mut Report) {
+    for alg in 0..3 {
+        let secret = "boundary-secret";
+        let router = app(alg, secret);
+        let header = format!(r#"{{"typ":"JWT","alg":"{}"}}"#, ALGS[alg]);
+        for (claim, expect) in [("exp", "reject"), ("nbf", "accept"), ("iat", "accept"), ("exp+1", "accept"), ("nbf+1", "reject")] {
+            for _attempt in 0..6 {
+                let target = now() + 1;
+                let t = std::time::Instant::now();
+                while now() < target && t.elapsed() < std::time::Duration::from_secs(3) {
+                    std::thread::sleep(std::time::Duration::from_micros(200));
+                }
+                let payload = match claim {
+                    "exp" => format!(r#"{{"sub":"b","exp":{target}}}"#),
+                    "exp+1" => format!(r#"{{"sub":"b","exp":{}}}"#, target + 1),
+                    "nbf+1" => format!(r#"{{"sub":"b","exp":{},"nbf":{}}}"#, target + 1000, target + 1),
+                    c => format!(r#"{{"sub":"b","exp":{},"{c}":{target}}}"#, target + 1000),
+                };
+                let bytes = format!("GET /p HTTP/1.1\r\nHost: t\r\nAuthorization: Bearer {}\r\n\r\n", sign(alg, secret, &header, &payload)).into_bytes();
+                SEEN.with(|s| s.borrow_mut().clear());
+                let t0 = now();
+                let _ = web::oneshot(&router, &bytes);
+                let t1 = now();
+                if t0 != target || t1 != target {
+                    rep.count("boundary:clock-moved-observation-discarded");
+                    continue;
+                }
+                rep.eval();
+                rep.count(&format!("boundary:{claim}-relative-to-now"));
+                rep.distinct(&format!("{}:boundary:{claim}", ALGS[alg]));
+                let ran = SEEN.with(|s| !s.borrow().is_empty());
+                let cj = json!({"case_index": u64::MAX, "alg": ALGS[alg], "payload": payload, "verified_at_second": target, "handler_ran": ran});
+                match (expect, ran) {
+                    ("reject", true) => rep.violation(&format!("C12/false-admission:boundary:{claim}"), &format!("token with {claim} relative to the verification second {target} was admitted (payload {payload})"), cj),
+                    ("accept", false) => rep.violation(&format!("C12/false-rejection:boundary:{claim}"), &format!("token with {claim} relative to the verification second {target} was refused (payload {payload})"), cj),
+                    _ => {}
+                }
+                break;
+            }
+        }
+    }
+}
+
 pub fn run(args: &Args, rep: &mut Report) {
     let small = args.flag("small").is_some();
+    if args.shard == 0 && args.start == 0 && !small {
+        boundary(rep);
+    }
     let dump_path = args.flag("dump").map(|d| format!("{d}/c12-cases-{}-{}.jsonl", args.shard, args.start));
     let mut dump = dump_path.as_ref().map(|p| std::io::BufWriter::new(std::fs::File::create(p).expect("dump file")));
     let mut case = args.shard;
